@@ -26,6 +26,11 @@ def run():
             pid += 1
             progs.append((pid, cg.wrap_toplevel(cg.Gen03(rng).program())))
             kinds[pid] = "random"
+        for rep in range(12 if chk.thorough else 3):
+            for name, node in cg.lazy_cases(rng):
+                pid += 1
+                progs.append((pid, cg.wrap_toplevel(node)))
+                kinds[pid] = "lazy:%s" % name
         results = cc.run_all(build, sc, progs, "c03")
         ok1, bad1, rs1 = cc.validate(sc, progs, results, "l2r", cfg="CoreRun.cfg")
         ok2, bad2, rs2 = cc.validate(sc, progs, results, "r2l", cfg="CoreRunR2L.cfg")
